@@ -161,6 +161,7 @@ def run(ctx):
     unscheduled_stream(ctx)
     decimal_stream(ctx)
     step_type_stream(ctx)
+    falsy_callable_stream(ctx)
 
     # constructor: every (scheduled, callable) pattern --------------------------------------
     lines, pend = [], []
@@ -406,6 +407,70 @@ def step_type_stream(ctx):
                      '(factors of the supplied step)', case, 'step-type-ignored')
         ctx.evaluations += 1
         ctx.count('step-type-' + kind)
+
+
+def falsy_callable_stream(ctx):
+    """a factor function is any callable — also one whose truth value is False (an empty lookup table with `__call__`, an
+    object with `__len__` == 0 or `__bool__` False): it is applied like every other function (C19-mutU tested truthiness
+    instead of `is not None`)"""
+    import torch
+    from kfac.preconditioner import KFACPreconditioner
+    from kfac.scheduler import LambdaParamScheduler
+    rng = ctx.rng
+
+    class Table(dict):
+        def __init__(self, default):
+            super().__init__()
+            self.default = default
+
+        def __call__(self, st):
+            return self.get(st, self.default)
+
+    class Sized:
+        def __init__(self, default):
+            self.default = default
+
+        def __len__(self):
+            return 0
+
+        def __call__(self, st):
+            return self.default
+
+    class Falsy:
+        def __init__(self, default):
+            self.default = default
+
+        def __bool__(self):
+            return False
+
+        def __call__(self, st):
+            return self.default
+    kinds = {'empty-table': Table, 'len0': Sized, 'bool-false': Falsy}
+    names = ['factor_update_steps', 'inv_update_steps', 'damping', 'factor_decay', 'kl_clip', 'lr']
+    for _ in range(ctx.budget(36, 200)):
+        kind = rng.choice(sorted(kinds))
+        n = rng.choice(names)
+        p = KFACPreconditioner(torch.nn.Linear(2, 2), factor_update_steps=8, inv_update_steps=64, damping=0.5, lr=0.25, kl_clip=0.125,
+                               factor_decay=0.5)
+        f = rng.choice([0.5, 0.25, 2.0]) if n not in ('factor_decay',) else 0.5
+        s_ = LambdaParamScheduler(p, **{n + '_lambda': kinds[kind](f)})
+        before = getattr(p, n)
+        k = rng.randrange(1, 4)
+        case = {'stream': 'falsy-callables', 'kind': kind, 'parameter': n, 'factor': f, 'steps': k}
+        try:
+            for _i in range(k):
+                s_.step()
+        except Exception as e:  # noqa: BLE001
+            ctx.fail(f'scheduler.step() with a {kind} factor function for {n} raised {type(e).__name__}: {e}', case, 'falsy-callable-raised')
+            continue
+        want = before
+        for _i in range(k):
+            want = int(want * f) if n.endswith('_steps') else want * f
+        if getattr(p, n) != want:
+            ctx.fail(f'{n} scheduled by a callable whose truth value is False ({kind}) with factor {f}: after {k} scheduler steps it is '
+                     f'{getattr(p, n)}, expected {want} (multiplied by f(step) on every step)', case, 'falsy-callable-ignored')
+        ctx.evaluations += 1
+        ctx.count('falsy-callable-' + kind)
 
 
 def decimal_stream(ctx):
